@@ -934,8 +934,9 @@ def handleMore (args : List String) (impl : String) : Option Verdict :=
       | _, _ => some .unknown
     | none => some .unknown
   | "cover" :: _ver :: k :: rest =>
-    -- the send channel overflowing while the writer is stalled: whole frames, every frame the NEXT frame of its
-    -- sender (so each sender got a PREFIX of its list through: `Props/C19Send.stalled_writer_accepts_prefixes`),
+    -- the send channel overflowing while the writer is held: whole frames, no foreign frame, per sender a SUBSEQUENCE
+    -- of what it offered in order (`Props/C19Send.per_sender_order_kept`, every schedule; a prefix only while no slot
+    -- is freed: `stalled_writer_accepts_prefixes`),
     -- `SEND_CHANNEL_CAP` frames, or one more (taken by the writer before it stalled)
     match nat? k with
     | some k =>
@@ -944,12 +945,12 @@ def handleMore (args : List String) (impl : String) : Option Verdict :=
       | some lists, some stream =>
         let okModel := match splitFrames netAutomatedTesting (stream.length + 1) stream with
           | some frames =>
-            (tagFrames lists frames).isSome &&
+            (tagFramesSub lists frames).isSome &&
               (frames.length == GV.Gen.CodecConn.SEND_CHANNEL_CAP || frames.length == GV.Gen.CodecConn.SEND_CHANNEL_CAP + 1)
           | none => false
-        if okModel then some (cmpSpec "prefixes" impl)
-        else if impl = "prefixes" then some (.fail "prefixes (the driver's evaluation of the received stream disagrees)")
-        else some (cmpSpec "prefixes" impl)
+        if okModel then some (cmpSpec "subsequences" impl)
+        else if impl = "subsequences" then some (.fail "subsequences (the driver's evaluation of the received stream disagrees)")
+        else some (cmpSpec "subsequences" impl)
       | _, _ => some .unknown
     | none => some .unknown
   | ["wtime", dir, stalled] =>
